@@ -2,6 +2,7 @@ import Tetro.Model.Render
 import Tetro.Model.Lcd
 import Tetro.Model.Whole
 import Tetro.Proofs.Whole
+import Tetro.Proofs.WholeSafe
 
 /-!
 C15 inside the whole-machine model: the two models of `ppu.EndMachineCycle` keep the same clock.
@@ -9,8 +10,9 @@ C15 inside the whole-machine model: the two models of `ppu.EndMachineCycle` keep
 `Model/Render.lean` (the pixel pipeline C15's theorems are about) and `Model/Lcd.lean` (the timing model
 C13/C14 are about) both contain the mode / tick schedule of `EndMachineCycle`.  `Board.ppuStep` of the
 whole-machine model runs both on every cycle and copies the LCD model's clock into the pixel state
-(`syncPix`) before the pixel work.  The theorems here show that this copy is the identity along every
-execution: whatever the scene and the pixel state, one call of `Render.tick` with the LCD on moves
+(`syncPix`) before the pixel work.  The theorems here show that the PPU step itself never makes the two
+clocks differ (so the copy only ever transports the effect of a CPU write to LCDC / LY made between two PPU
+steps): whatever the scene and the pixel state, one call of `Render.tick` with the LCD on moves
 `ticks`, `mode`, `ly` and `firstLine` exactly as `Lcd.tickOn` does.  So the frame-assembly theorem
 `c15_frame` (tick counter of `Render`) and the schedule theorems of C13 speak about one and the same clock.
 -/
@@ -141,7 +143,7 @@ theorem c15_whole_clock (s : Scene) (hen : enabled s = true) (p : Lcd.Ppu) (st s
     (`Board.ppuStep`: pixel work of `Render.tick` on the scene of this cycle, timing of `Lcd.tick`) that does
     not panic leaves the pixel state's clock equal to the LCD model's clock - LCD on or off - provided the
     two models agree on the LCD-enable flag and the counter is inside a frame.  So the `syncPix` copy at the
-    start of the next cycle changes nothing: the frame-assembly invariant of `c15_frame` and the schedule of
+    start of the next cycle changes nothing unless the CPU wrote LCDC / LY in between: the frame-assembly invariant of `c15_frame` and the schedule of
     C13 are statements about the same counter of the same machine. -/
 theorem c15_whole_ppuStep (b : Board) (hflag : enabled (sceneOf b.m) = b.m.ppu.enabled)
     (hlt : b.m.ppu.ticks < 17556) (hc : (Board.ppuStep b).crashed = false) :
@@ -190,6 +192,40 @@ theorem c15_whole_ppuStep (b : Board) (hflag : enabled (sceneOf b.m) = b.m.ppu.e
             unfold syncPix
             rw [← a, ← b, ← c, ← d]
 
+/-! ### the hypotheses follow from the board invariant -/
+
+/-- the LCD model's counter stays inside a frame (from the simulation relation with the C13 specification) -/
+theorem ticks_lt_of_rel (s : Tetro.Spec.Lcd.St) (p : Lcd.Ppu) (h : Tetro.LcdLemmas.Rel s p) :
+    p.ticks < 17556 := by
+  unfold Tetro.LcdLemmas.Rel at h
+  obtain ⟨_, _, _, _, _, h⟩ := h
+  cases hs : s.since with
+  | none => rw [hs] at h; simp only [] at h; omega
+  | some n => rw [hs] at h; simp only [] at h; rw [h.2.2.1]; exact Tetro.LcdLemmas.phase_lt _
+
+private theorem low_bit7 : ∀ l : Fin 128, decide ((l.val % 256) &&& 0x80 > 0) = false ∧
+    decide (((128 + l.val) % 256) &&& 0x80 > 0) = true := by decide +kernel
+
+/-- both models read the LCD-enable flag from the same place: LCDC as it reads back -/
+theorem flag_agree (m : Machine.Machine) (h : m.ppu.lcdcLow < 128) :
+    enabled (sceneOf m) = m.ppu.enabled := by
+  have hb := low_bit7 ⟨m.ppu.lcdcLow, h⟩
+  simp only at hb
+  unfold enabled sceneOf toByte Lcd.readLCDC
+  simp only
+  cases m.ppu.enabled
+  · simp only [Bool.false_eq_true, if_false, Nat.zero_add]; exact hb.1
+  · simp only [if_true]; exact hb.2
+
+/-- **clock agreement from the board invariant** (`BoardOk`: no Go panic so far and the component invariants,
+    preserved by every whole-machine cycle - `whole_no_crash_partial`): no hypothesis on this cycle is left
+    except that the seven low LCDC bits are a 7-bit value. -/
+theorem c15_whole_ppuStep_ok (b : Board) (h : Tetro.WholeSafe.BoardOk b) (hl : b.m.ppu.lcdcLow < 128) :
+    syncPix (Board.ppuStep b).m.ppu (Board.ppuStep b).pix = (Board.ppuStep b).pix := by
+  obtain ⟨s, hs⟩ := h.lcd
+  exact c15_whole_ppuStep b (flag_agree b.m hl) (ticks_lt_of_rel s _ hs)
+    (Tetro.WholeSafe.whole_ppu_step_total b h).alive
+
 /-! ### non-vacuity -/
 
 /-- the power-on board meets the hypotheses (LCD on in both models, counter 0), does not panic, and its
@@ -198,7 +234,7 @@ def exBoard : Board :=
   (powerOn (.none { rom := Cart.pagesOf { len := 0x8000, byte := fun _ => 0 }, imgLen := 0x8000 }) false false).b
 
 example : enabled (sceneOf exBoard.m) = exBoard.m.ppu.enabled ∧ exBoard.m.ppu.enabled = true ∧
-    exBoard.m.ppu.ticks < 17556 ∧ (Board.ppuStep exBoard).crashed = false ∧
+    exBoard.m.ppu.ticks < 17556 ∧ exBoard.m.ppu.lcdcLow < 128 ∧ (Board.ppuStep exBoard).crashed = false ∧
     clock (Board.ppuStep exBoard).pix = clock (syncPix (Board.ppuStep exBoard).m.ppu pixInit) := by
   decide +kernel
 
